@@ -146,6 +146,21 @@ class Model:
     def vjp_metric_diag(self, q):
         return self._vjp_of(self.metric_diag, q)
 
+    # tuple-structured parametrisation: (scalar, 1-vector) for a block diagonal metric blockdiag(s(q) I_1, diag(d0(q)))
+    def metric_blocks(self, q):
+        return (self.metric_scalar(q), self.metric_diag(q)[:1])
+
+    def vjp_metric_blocks(self, q):
+        s_, d_ = self.metric_scalar(q), self.metric_diag(q)[:1]
+        gs, gd = grad(s_, q), jac(to_obj(np.asarray(d_, dtype=object)), q)
+
+        def vjp(v):
+            if not (isinstance(v, tuple) and len(v) == 2):
+                raise TypeError(f"vjp of the block parametrisation expects a 2-tuple (scalar, 1-vector), got {type(v).__name__} of length {len(v) if hasattr(v, '__len__') else '?'}")
+            v0, v1 = _s(v[0]), to_obj(np.asarray(v[1], dtype=object)).reshape(-1)
+            return np.array([SE(v0.e * gs[k].e + v1[0].e * gd[0, k].e) for k in range(len(q))], dtype=object)
+        return (vjp, (s_, d_)) if self.aux else vjp
+
     def metric_chol(self, q):
         n = len(q)
         L = np.empty((n, n), dtype=object)
@@ -309,6 +324,11 @@ def c05_cases(S, M, ST, O, which):
                                                                                grad_neg_log_dens=model.grad_neg_log_dens), lambda q: model.metric_dense(q)),
                 ("dense", lambda: S.DenseRiemannianMetricSystem(model.neg_log_dens, model.metric_dense, vjp_metric_func=model.vjp_metric_dense,
                                                                  grad_neg_log_dens=model.grad_neg_log_dens), lambda q: model.metric_dense(q))]
+        # generic RiemannianMetricSystem with a matrix class built by a factory from a TUPLE-structured parameter (block diagonal metric)
+        riem.append(("generic class, block diagonal metric from a (scalar, vector) parameter", lambda: S.RiemannianMetricSystem(
+            model.neg_log_dens, lambda prm: M.PositiveDefiniteBlockDiagonalMatrix((M.PositiveScaledIdentityMatrix(prm[0], 1), M.PositiveDiagonalMatrix(prm[1]))),
+            model.metric_blocks, vjp_metric_func=model.vjp_metric_blocks, grad_neg_log_dens=model.grad_neg_log_dens),
+            lambda q: np.diag(np.array([model.metric_scalar(q), model.metric_diag(q)[0]], dtype=object))))
         for label, mk, view in riem:
             if k == which:
                 c05_case(S, M, ST, f"{label}; aux={aux}", mk(), view, O)
